@@ -312,6 +312,9 @@ func TestVerifC04MinPrefix(t *testing.T) {
 		go func() {
 			defer wg.Done()
 			for c := range ch {
+				if rec.Violations() > 60 {
+					continue // enough witnesses; on a broken tree every further session costs real seconds
+				}
 				c04Session(s, rec, srng, c)
 			}
 		}()
@@ -538,6 +541,9 @@ func TestVerifC04Obfs4(t *testing.T) {
 		go func() {
 			defer wg.Done()
 			for j := range ch {
+				if rec.Violations() > 60 {
+					continue
+				}
 				c04Obfs4Session(s, rec, srng, j.cutsOf, j.app, j.others, j.tag)
 			}
 		}()
